@@ -10,6 +10,7 @@ Pipeline of one check:
   4. TLC (ExpOracle.tla: RefGraph, Urls, ExpTrace, Findings) evaluates the property
      predicates and validates the event trace of every observation                -> verdicts
 """
+import hashlib
 import json
 import os
 import shutil
@@ -213,28 +214,36 @@ def run_batches(ctx, batches, preds, mc_runs, nontrivial=lambda o, v: True, samp
     vlib.build_worker(ctx)
     for (genset, cont, skip, label) in mc_runs:
         mc_expander(ctx, gen(ctx, *genset), cont, skip, label)
-    obsfiles = observe(ctx, batches)
-    pairs = confirm_crashes(ctx, judge(ctx, obsfiles, preds), preds)
     rep = vlib.Report(ctx)
     drift = 0
-    for o, v in pairs:
-        rep.evaluations += 1
-        if o['outcome'] == 'harness-error':
-            raise Broken('harness error: %s %s' % (o['detail'], o['concrete'][:2]))
-        if nontrivial(o, v):
-            rep.nontrivial.add(nontrivial_key(o))
-        if v.get('conf') == 'fail':
-            drift += 1
-        for p in preds:
-            rep.count(p + ':' + v[p])
-            if v[p] == 'fail':
-                rep.fail(p, replay_obj(o, v), v.get('kf', []), brief(o, v))
-        if len(rep.samples) < 3 and sample(o, v):
-            rep.samples.append({'abstract': o['abstract'], 'layout': o['layout'], 'opts': o['opts'], 'entry': o['entry'],
-                                'cache': o.get('cache'), 'elem': o.get('elem'), 'loads': o.get('loadss'), 'documents': o['concrete'],
-                                'events': o.get('events', [])[:12], 'verdict': {p: v[p] for p in preds}})
-    if post:
-        post(rep, pairs)
+    # the thorough tier runs millions of observations: one batch at a time (observe, judge, account, forget)
+    chunks = [[b] for b in batches] if ctx.tier == 'thorough' else [batches]
+    for chunk in chunks:
+        obsfiles = observe(ctx, chunk)
+        pairs = confirm_crashes(ctx, judge(ctx, obsfiles, preds), preds)
+        for o, v in pairs:
+            rep.evaluations += 1
+            if o['outcome'] == 'harness-error':
+                raise Broken('harness error: %s %s' % (o['detail'], o['concrete'][:2]))
+            if nontrivial(o, v):
+                rep.nontrivial.add(hashlib.sha1(nontrivial_key(o).encode()).digest()[:8])
+            if v.get('conf') == 'fail':
+                drift += 1
+            for p in preds:
+                rep.count(p + ':' + v[p])
+                if v[p] == 'fail':
+                    rep.fail(p, replay_obj(o, v), v.get('kf', []), brief(o, v))
+            if len(rep.samples) < 3 and sample(o, v):
+                rep.samples.append({'abstract': o['abstract'], 'layout': o['layout'], 'opts': o['opts'], 'entry': o['entry'],
+                                    'cache': o.get('cache'), 'elem': o.get('elem'), 'loads': o.get('loadss'), 'documents': o['concrete'],
+                                    'events': o.get('events', [])[:12], 'verdict': {p: v[p] for p in preds}})
+        if post:
+            post(rep, pairs)
+        del pairs
+        for f in obsfiles:
+            for g in (f, f + '.slim', f.replace('_obs.', '_ver.')):
+                if os.path.exists(g) and not os.environ.get('VERIF_KEEP'):
+                    os.remove(g)
     rep.counts['operational_drift'] = drift
     if drift:
         log('[drift] %d observations whose event trace is not a behaviour of Expander.tla (not a violation by itself)' % drift)
@@ -354,6 +363,10 @@ def check_c04(ctx):
                    Batch(('random', 14, 3, 300, True), ['sibling+subdir', 'parent+remote'], four, [sd['rot']], reps=1, spell='varied'),
                    Batch(G_N3_ALL_ANY, ['sibling'], ['000', '010'], [sd['rot']], reps=1, oddtargets=True),
                    Batch(G_N3_ALL_WF, ['sibling'], ['000'], [sd['rot']], reps=1, entry=RELBASE_ENTRIES),
+                   # member names that need escaping in a pointer and in a URL, whatever the seed
+                   Batch(G_N3_ALL_WF, ['sibling', 'subdir'], ['000', '010'], [sd['rot']], reps=1, names='special', spell='varied'),
+                   # one unresolvable ref per graph, in every fault class (typed root: pointers through unions)
+                   Batch(G_N2_ALL_ANY, ['sibling'], four, [sd['rot']], reps=1, allfaults=True),
                    Batch(G_N4_SP_WF if ctx.seed % 2 else G_N4_SR_WF, ['sibling'], ['000'], [sd['rot']], reps=1,
                          entry='ExpandParameter:relbase' if ctx.seed % 2 else 'ExpandResponse:relbase', watchdog='4s')]
         mcs = [(G_N3_ALL_ANY, False, False, 'any_strict_full'), (G_N3_ALL_ANY, True, True, 'any_cont_skip'),
@@ -612,7 +625,7 @@ def c18_transparency(rep, pairs):
             kf = sorted(set(x for o2, v2 in lst for x in v2.get('kf', [])))
             rep.fail('c18transparent', replay_obj(o, v), kf, 'outcome / output differs across cache modes %s: %s' % (
                 sorted(set(o2.get('cache') for o2, v2 in lst)), brief(o, v)))
-    rep.counts['c18transparent:groups'] = n
+    rep.counts['c18transparent:groups'] = rep.counts.get('c18transparent:groups', 0) + n
 
 
 def replay(ctx, rec):
